@@ -219,6 +219,12 @@ def restart_run(rebound, img, ops, wd, tag):
                 setattr(sim.particles[op[1]], op[2], op[3])
         elif o == "add":
             sim.add(**op[1])
+        elif o == "hash":
+            if op[1] < sim.N:
+                sim.particles[op[1]].hash = op[2]
+        elif o == "lrescale":
+            if sim.N_var_config > 0:
+                sim.var_config[0]._lrescale = op[1]
         elif o == "integrator":
             sim.integrator = op[1]
         elif o == "snap":
@@ -282,7 +288,7 @@ def detect_variant(c, rebound, open_exe, W):
     class Q:      # quiet: the C06 probes report to C06, here they only decide the model variant
         def violation(self, *a):
             return False
-    f1, f11, _, f19 = c06.probe_variant(Q(), rebound, os.path.join(W, "probe"))
+    f1, f11, _, f19, f18, f5 = c06.probe_variant(Q(), rebound, os.path.join(W, "probe"))
     fn = os.path.join(W, "probe", "p1.bin")
     b = open(fn, "rb").read()
     blobs = ac.parse_archive(b)
@@ -302,13 +308,13 @@ def detect_variant(c, rebound, open_exe, W):
     rc = ac.fork_run(py_open, rebound, img, None, out)
     res = run_batch(open_exe, [(img, "-")], perturb=True)[0]
     f2 = (rc == 0 and res["status"] == 0)
-    return (f1, f11, f2, f19), dict(py_rc=rc, c_status=res["status"], c_lines=res["lines"][:2])
+    return (f1, f11, f2, f19, f18, f5), dict(py_rc=rc, c_status=res["status"], c_lines=res["lines"][:2])
 
 
 def _run(c, d, rebound, drv, open_exe, app_exe, W):
     v, probe = detect_variant(c, rebound, open_exe, W)
     V = vstr(v)
-    c.cov["source_variant"] = {"F1_fixed": v[0], "F11_fixed": v[1], "F2_fixed": v[2], "F19_fixed": v[3], "probe": probe}
+    c.cov["source_variant"] = {"F1_fixed": v[0], "F11_fixed": v[1], "F2_fixed": v[2], "F19_fixed": v[3], "F18_particles_bitwise": v[4], "F5_varconfig_memberwise": v[5], "probe": probe}
     c.log("source behaves as model variant", V)
     c.cov["rule"] = ("archives from the C06 history generator (manual snapshots; structural histories only when the source writes them "
                      "correctly); for every append the model's write plan must reproduce the bytes the real append changed; crash images "
@@ -504,7 +510,7 @@ def _run(c, d, rebound, drv, open_exe, app_exe, W):
                 except OSError:
                     pass
         # ------------------------------------------------------------------ restart from a crash image
-        if hist["init"]["integrator"] in RESTARTABLE and not any(o[0] in ("merge", "variation", "remove", "remove_all", "reset", "add") for o in hist["ops"]) and n >= 3:
+        if hist["init"]["integrator"] in RESTARTABLE and all(o[0] in ("snap", "steps", "set", "edit", "hash", "lrescale", "integrator", "nop") for o in hist["ops"]) and n >= 3:
             restart_case(c, rebound, drv, open_exe, V, v, hist, wd, n, rng, st)
         shutil.rmtree(wd, ignore_errors=True)
     # ------------------------------------------------------------------ automatic cadence: crash + restart
